@@ -213,6 +213,9 @@ func (h *harness) checkAncestor(s *sess) {
 		h.fail("ancestor", "not-on-local-main", fmt.Sprintf("session %d works from %s, which is not on the local main chain", s.seq, h.blockStr(a)))
 		return
 	}
+	// finderHonest: every finder answer that carried content (an ancestor, a hash) was truthful;
+	// error answers, silence and delays do not count as lies: after them the finder may stop with
+	// an error, but an ancestor it does report must still be the right one
 	if !s.finderHonest {
 		h.x.Probe("ancestor-from-lying-peer")
 		return
@@ -231,7 +234,7 @@ func (h *harness) checkAncestor(s *sess) {
 	if s.lightNone && s.fullScan {
 		h.x.Probe("full-scan-ancestor")
 		if no != uint64(hi) {
-			h.fail("ancestor", "not-highest", fmt.Sprintf("the anchor comparison found none and the full scan ran with honest answers: ancestor %d, highest shared block %d", no, hi))
+			h.fail("ancestor", "not-highest", fmt.Sprintf("the anchor comparison found none and the full scan ran; every answer that carried a hash was truthful (errors and silence aside): ancestor %d, highest shared block %d", no, hi))
 		}
 	} else {
 		h.x.Probe("light-scan-ancestor")
@@ -566,11 +569,6 @@ func (h *harness) apply(st *simkit.Step) {
 		p.done, p.dropped = true, true
 		h.x.Logf("  drop #%d %s", p.id, p.key)
 		h.x.Fault("silence-" + kindName[p.kind])
-		if p.kind == kAncestor || p.kind == kHashByNo {
-			if h.cur != nil && p.seq == h.cur.seq {
-				h.cur.finderHonest = false
-			}
-		}
 	case "tick":
 		if len(h.selfq) > 0 || st.V < 1 || st.V > 1<<22 || h.now() > h.simLimit ||
 			(h.k.faults == 0 && len(h.answerable()) > 0) {
@@ -782,8 +780,13 @@ func (h *harness) respond(p *preq, a, b int) {
 			rsp.BlockHash, rsp.Err = nil, nil
 			lie("hashbyno-lie-empty")
 		case 3:
+			// exactly what p2p/hashbynoreceiver.go sends for a non-OK status: no hash, RemotePeerFailError.
+			// An error is not a statement about the remote chain: the finder stays "honestly answered".
 			rsp.BlockHash, rsp.Err = nil, message.RemotePeerFailError
-			lie("hashbyno-error")
+			h.x.Fault("hashbyno-error")
+			if mine && m.BlockNo <= h.u.remoteBest() {
+				h.x.Probe("finder-probe-failed-at-existing-height")
+			}
 		case 4:
 			if lh, err := h.local.GetHashByNo(m.BlockNo); err == nil {
 				rsp.BlockHash, rsp.Err = lh, nil
